@@ -407,7 +407,7 @@ func (u *Unit) assign(st *State, x *ast.AssignStmt, c *Ctl, k func(*State)) {
 			// v, ok := m[k]
 			base := ev.expr(r.X)
 			if mt, ok := base.Typ.Underlying().(*types.Map); ok {
-				idx := ev.coerce(ev.expr(r.Index), mt.Key())
+				idx := ev.mapKey(ev.expr(r.Index), mt.Key())
 				lv := &LValue{K: lvMapElem, Ref: base.T, Idx: idx.T, IdxS: idx.S, Typ: mt.Elem(), MapTyp: mt, ElemKey: typeKey(mt)}
 				v := ev.readLV(lv)
 				dom, _, _, ds, _ := ev.mapFams(mt, "", SRef)
@@ -942,13 +942,30 @@ func (u *Unit) rangeStmt(st *State, x *ast.RangeStmt, c *Ctl, k func(*State)) {
 		} else {
 			n = coll.Comp["#len"].T
 		}
-		// entry: idx = 0
+		// entry: idx = 0; for slices with a set view, `visited` is the set of the elements seen so far
+		var visSort Sort
+		var collSet string
+		if sv, ok := coll.Comp["#set"]; ok && sv.T != "" && !isInt {
+			visSort = sv.S
+			collSet = sv.T
+		}
 		eb := map[string]Value{"idx": intV("0")}
+		if visSort != "" {
+			eb["visited"] = Value{K: vScalar, T: u.emptySet(visSort), S: visSort}
+		}
 		u.checkInvariants(st, ls, id, "inv_entry", bodyPos, eb)
 		u.havocLoop(st, x.Body, nil, ls, bodyPos)
 		i := u.fresh("idx", SInt)
 		st.assume(and(app("<=", "0", i), app("<=", i, n)))
 		ib := map[string]Value{"idx": intV(i)}
+		vis := ""
+		var curElem string
+		if visSort != "" {
+			vis = u.fresh("visited", visSort)
+			ib["visited"] = Value{K: vScalar, T: vis, S: visSort}
+			ks, _, _ := visSort.isArray()
+			st.assume(fmt.Sprintf("(forall ((x %s)) (! (=> (select %s x) (select %s x)) :pattern ((select %s x))))", ks, vis, collSet, vis))
+		}
 		u.assumeInvariants(st, ls, id, bodyPos, ib)
 		u.branch(st, app("<", i, n), func(sb *State) {
 			if isInt {
@@ -966,13 +983,23 @@ func (u *Unit) rangeStmt(st *State, x *ast.RangeStmt, c *Ctl, k func(*State)) {
 					e2 := u.ev(sb, x.Pos())
 					v := e2.readLV(&LValue{K: lvElem, Ref: coll.Comp["#arr"].T, Idx: i, Typ: elemT, ElemKey: typeKey(elemT)})
 					u.assumeAllocated(sb, v)
+					if sv, ok := coll.Comp["#set"]; ok && sv.T != "" && v.K == vScalar {
+						sb.assume(app("select", sv.T, v.T))
+						curElem = v.T
+					}
 					bindVar(sb, x.Value, v)
 				}
 			}
 			c2 := c.with()
 			c2.label = ""
 			endIter := func(se *State) {
-				u.checkInvariants(se, ls, id, "inv_pres", bodyPos, map[string]Value{"idx": intV(app("+", i, "1"))})
+				nb := map[string]Value{"idx": intV(app("+", i, "1"))}
+				if vis != "" && curElem != "" {
+					nb["visited"] = Value{K: vScalar, T: app("store", vis, curElem, "true"), S: visSort}
+				} else if vis != "" {
+					nb["visited"] = Value{K: vScalar, T: vis, S: visSort}
+				}
+				u.checkInvariants(se, ls, id, "inv_pres", bodyPos, nb)
 			}
 			c2.cont[""] = endIter
 			c2.brk[""] = k
@@ -980,8 +1007,28 @@ func (u *Unit) rangeStmt(st *State, x *ast.RangeStmt, c *Ctl, k func(*State)) {
 				c2.cont[lbl] = endIter
 				c2.brk[lbl] = k
 			}
+			if vis != "" && curElem == "" {
+				// the element variable is not used by the loop: read it for the visited set
+				var elemT types.Type
+				switch tt := t.(type) {
+				case *types.Slice:
+					elemT = tt.Elem()
+				case *types.Array:
+					elemT = tt.Elem()
+				}
+				if elemT != nil {
+					e3 := u.ev(sb, x.Pos())
+					if v := e3.readLV(&LValue{K: lvElem, Ref: coll.Comp["#arr"].T, Idx: i, Typ: elemT, ElemKey: typeKey(elemT)}); v.K == vScalar {
+						curElem = v.T
+					}
+				}
+			}
 			u.block(sb, x.Body.List, c2, endIter)
 		}, func(se *State) {
+			if vis != "" {
+				// all elements visited: the visited set is the set view (the set view is by definition the set of the elements)
+				se.assume(app("=", vis, collSet))
+			}
 			k(se)
 		})
 	case *types.Map:
